@@ -6,6 +6,7 @@ import M3d.Lemmas.C17Seg
 import M3d.Lemmas.C17Svd2
 import M3d.Lemmas.C17Vec
 import M3d.Lemmas.C17PolyMul
+import M3d.Lemmas.C17BiCG
 import M3d.Gen.Binomial
 /-!
 # C17 — numerical and curve kernels satisfy their defining equations
@@ -973,6 +974,26 @@ theorem bezPolyFuel_eq [DecidableEq K] (t : K) :
       simp only [Poly.eval_eq_spec, Poly.evalSpec_cons, Poly.evalSpec_nil]
       push_cast; ring
 
+/-- **Using a curve does not change it**: in any sequence of `Eval` / `Split` calls on one `BezierCurve` value of at
+least two control points (the calls share the slice, `bezRun` threads the control points through them), EVERY call
+— not only the first — answers for the original control points (`Eval` with de Casteljau's point), and the control
+points are the original ones afterwards.  This is what makes `InverseX` (65 evaluations of one curve),
+`JoinedCurve.Eval`, `Split`/`Length` after an `Eval` consistent with single evaluations. -/
+theorem bezier_ops_sequence (b : List K) (h : 2 ≤ b.length) (ops : List (BezOp K)) :
+    bezRun M3d.Gen.binomialTable b ops = (ops.map (bezOpSpec b), b) := by
+  induction ops with
+  | nil => rfl
+  | cons op ops ih =>
+    cases op with
+    | eval t =>
+      simp only [bezRun, bezStep, ih, List.map_cons, bezOpSpec, bezier_eval_eq_decasteljau b t h]
+    | split t =>
+      simp only [bezRun, bezStep, ih, List.map_cons, bezOpSpec]
+
+/-- A concrete run: the second evaluation of the same 5-point curve is again the value on the original points. -/
+example : (bezRun M3d.Gen.binomialTable [(0 : ℚ), 4, 4, 0, 8] [.eval (1/2), .eval (1/2)]).2 = [0, 4, 4, 0, 8] := by
+  decide +kernel
+
 /-- **`BezierCurve.Polynomials()`** converts each coordinate into a polynomial whose value at `t`
 is the curve's coordinate at `t`. -/
 theorem bezier_polynomials_eval [DecidableEq K] (b : List K) (t : K) (h : b ≠ []) :
@@ -1005,6 +1026,66 @@ example :
     let L : List (Seg ℚ) := [⟨0, 0, 4, 0⟩, ⟨4, 0, 4, 4⟩]
     segEvalOld sq L (1/4) = (4, -2) ∧ segEval sq L (1/4) = (2, 0) ∧ segSpec sq L (1/4) = (2, 0) := by
   decide +kernel
+
+/-- **`SegmentCurve.Eval` on a polyline with repeated vertices.**  `segs` is ANY connected polyline (each
+segment starts where the previous one ends), with any number of zero-length segments anywhere — at the start, in
+the middle (also several in a row), at the end, or nothing else —, and `t ≥ 0`: the program (start offsets with
+repeated entries, `sort.SearchFloat64s` returning the FIRST of equal offsets, the index fix-up, the zero-length
+guard before the division) returns the arclength walk `segSpec`, in which a zero-length segment takes up no part
+of the curve.  `sqrt` is `math.Sqrt` (`SqrtSpec`: `sqrt(x)² = x`, `sqrt(x) ≥ 0` on `x ≥ 0`).  For `t < 0` the
+first segment is extrapolated backwards, which has no meaning when it is a point; that case is left out. -/
+theorem segment_curve_eval_repeated (sqrt : K → K) (hs : SqrtSpec sqrt) (segs : List (Seg K)) (hne : segs ≠ [])
+    (hc : Connected segs) (t : K) (ht : 0 ≤ t) :
+    segEval sqrt segs t = segSpec sqrt segs t := by
+  have hs' : SqrtOK sqrt := fun x hx => ⟨(hs x hx).2, (hs x hx).1⟩
+  have e : segEval sqrt segs t = evalFrom sqrt ((0 : Nat) : K) segs
+      (t * (cumulative ((0 : Nat) : K) (segs.map (segLen sqrt))).2) := rfl
+  have htot : 0 ≤ (cumulative ((0 : Nat) : K) (segs.map (segLen sqrt))).2 := by
+    rw [cumulative_total]
+    push_cast
+    rw [zero_add]
+    apply List.sum_nonneg
+    intro x hx
+    obtain ⟨s, _, rfl⟩ := List.mem_map.mp hx
+    exact segLen_nonneg sqrt hs' s
+  rw [e, evalFrom_eq_walk_connected sqrt hs' segs hne hc _ _ (by simpa using mul_nonneg ht htot), segSpec]
+  congr 1
+  push_cast; ring
+
+/-- **Repeated vertices do not change the curve**: for `0 ≤ t < 1` on a connected polyline of positive total
+length, `SegmentCurve.Eval(t)` is the specification evaluated on the polyline with the zero-length segments
+removed (`properSegs`) — which by `segment_curve_eval` is also what `Eval(t)` returns on that polyline. -/
+theorem segment_curve_eval_dedup (sqrt : K → K) (hs : SqrtSpec sqrt) (segs : List (Seg K))
+    (hc : Connected segs) (t : K) (h0 : 0 ≤ t) (h1 : t < 1)
+    (hlen : 0 < (segs.map (segLen sqrt)).sum) :
+    segEval sqrt segs t = segSpec sqrt (properSegs sqrt segs) t ∧
+      segEval sqrt segs t = segEval sqrt (properSegs sqrt segs) t := by
+  have hs' : SqrtOK sqrt := fun x hx => ⟨(hs x hx).2, (hs x hx).1⟩
+  have hne : segs ≠ [] := by rintro rfl; simp at hlen
+  have hpne : properSegs sqrt segs ≠ [] := by
+    intro hnil
+    rw [sum_eq_zero_of_properSegs_nil sqrt hs' segs hnil] at hlen
+    exact lt_irrefl _ hlen
+  have key : segEval sqrt segs t = segSpec sqrt (properSegs sqrt segs) t := by
+    rw [segment_curve_eval_repeated sqrt hs segs hne hc t h0]
+    simp only [segSpec, cumulative_total, sum_properSegs sqrt hs' segs]
+    push_cast
+    rw [zero_add]
+    exact walk_properSegs sqrt hs' segs _ (mul_nonneg h0 hlen.le) (by nlinarith)
+  exact ⟨key, by rw [key, segment_curve_eval sqrt _ hpne (properSegs_pos sqrt segs) t]⟩
+
+/-- Replay of the repeated-vertex defect: polyline `(0,0)-(1,0)-(1,0)-(1,2)`, `t = 1/3` (arclength 1, the
+repeated vertex): the code as found divided `0/0` (`none` = `{NaN NaN}`); the repaired code and the specification
+give the vertex `(1,0)`; at `t = 2/3` all agree on `(1,1)`. -/
+example :
+    let sq : ℚ → ℚ := fun x => if x = 1 then 1 else if x = 4 then 2 else 0
+    let L : List (Seg ℚ) := [⟨0, 0, 1, 0⟩, ⟨1, 0, 1, 0⟩, ⟨1, 0, 1, 2⟩]
+    segEvalNaN sq L (1/3) = none ∧ segEval sq L (1/3) = (1, 0) ∧ segSpec sq L (1/3) = (1, 0) ∧
+      segEvalNaN sq L (2/3) = some (1, 1) ∧ segEval sq L (2/3) = (1, 1) ∧ segSpec sq L (2/3) = (1, 1) := by
+  decide +kernel
+
+/-- … and that polyline satisfies the hypothesis `Connected`. -/
+example : Connected ([⟨0, 0, 1, 0⟩, ⟨1, 0, 1, 0⟩, ⟨1, 0, 1, 2⟩] : List (Seg ℚ)) := ⟨rfl, rfl, rfl, rfl, trivial⟩
 
 /-- **`JoinedCurve.Eval(t)`** for `0 ≤ t ≤ 1` and `n ≥ 1` sub-curves: sub-curve `i` is evaluated at
 `u = t·n − i` with `0 ≤ u ≤ 1` (each sub-curve consumes an equal share of `t`; `u = 1` only on the
@@ -1086,6 +1167,140 @@ theorem bisection_search_bracket (f : K → K) (x : K) (h0 : f 0 ≠ x) (h1 : f 
     push_cast
     simp [h0, h1, a, b]
 
+/-- **`CurveEvalX(c, x)` / `BezierCurve.EvalX`** (`fx`, `fy` the coordinate functions of the curve): when an end
+point has abscissa `x` the answer is its ordinate; otherwise NaN iff both ends are on one side of `x`, and else the
+ordinate `fy t` at the midpoint `t` of a bracket `fx lo ≤ x < fx hi` of width `2⁻⁶³` inside `[0,1]` — the inverse
+lookup is consistent with evaluation. -/
+theorem curve_evalx_bracket (fx fy : K → K) (x : K) :
+    (fx 0 = x → curveEvalX fx fy x = some (fy 0)) ∧
+    (fx 0 ≠ x → fx 1 = x → curveEvalX fx fy x = some (fy 1)) ∧
+    (fx 0 ≠ x → fx 1 ≠ x → (fx 0 ≤ x ↔ fx 1 ≤ x) → curveEvalX fx fy x = none) ∧
+    (fx 0 ≠ x → fx 1 ≠ x → ¬ (fx 0 ≤ x ↔ fx 1 ≤ x) → ∃ lo hi, curveEvalX fx fy x = some (fy ((lo + hi) / 2)) ∧
+        fx lo ≤ x ∧ ¬ fx hi ≤ x ∧ |hi - lo| = 1 / 2 ^ 63 ∧ 0 ≤ lo ∧ lo ≤ 1 ∧ 0 ≤ hi ∧ hi ≤ 1) := by
+  refine ⟨?_, ?_, ?_, ?_⟩
+  · intro h
+    simp [curveEvalX, bisectionSearch, h]
+  · intro h0 h1
+    simp [curveEvalX, bisectionSearch, h0, h1]
+  · intro h0 h1 hiff
+    rw [curveEvalX, (bisection_search_bracket fx x h0 h1).1 hiff]
+  · intro h0 h1 hn
+    by_cases a : fx 0 ≤ x
+    · have b : ¬ fx 1 ≤ x := fun b => hn ⟨fun _ => b, fun _ => a⟩
+      obtain ⟨lo, hi, e, c1, c2, c3, c4, c5⟩ := (bisection_search_bracket fx x h0 h1).2.1 a b
+      have hpos : (0 : K) < 1 / 2 ^ 63 := by positivity
+      refine ⟨lo, hi, by rw [curveEvalX, e], c1, c2, by rw [c3, abs_of_pos hpos], c4, by linarith, by linarith, c5⟩
+    · have b : fx 1 ≤ x := by
+        by_contra b
+        exact hn ⟨fun h => absurd h a, fun h => absurd h b⟩
+      obtain ⟨lo, hi, e, c1, c2, c3, c4, c5⟩ := (bisection_search_bracket fx x h0 h1).2.2 a b
+      have hpos : (0 : K) < 1 / 2 ^ 63 := by positivity
+      refine ⟨lo, hi, by rw [curveEvalX, e], c1, c2, ?_, by linarith, c5, c4, by linarith⟩
+      rw [abs_sub_comm, c3, abs_of_pos hpos]
+
+/-- **`CurveMesh(c, n)`** is the polyline through the `n+1` samples `c.Eval(k/n)`, `k = 0 … n`: `n` segments, segment
+`i` runs from the sample at `i/n` to the sample at `(i+1)/n` (so consecutive segments share their end points, the
+first starts at `Eval(0)` and, for `n > 0`, the last ends at `Eval(1)`). -/
+theorem curve_mesh_samples {β : Type} (f : K → β) (n : Nat) :
+    (curveMesh f n).length = n ∧
+    (∀ i, i < n → (curveMesh f n)[i]? = some (f ((i : K) / (n : K)), f (((i + 1 : Nat) : K) / (n : K)))) ∧
+    (0 < n → ((curveMesh f n)[n - 1]?).map Prod.snd = some (f 1)) := by
+  have hs : ∀ k, meshSample f n k = f ((k : K) / (n : K)) := by
+    intro k
+    cases k with
+    | zero => simp [meshSample]
+    | succ k => rfl
+  have h2 : ∀ i, i < n → (curveMesh f n)[i]? = some (f ((i : K) / (n : K)), f (((i + 1 : Nat) : K) / (n : K))) := by
+    intro i hi
+    simp only [curveMesh, List.getElem?_map, List.getElem?_range hi, Option.map_some, hs]
+  refine ⟨by simp [curveMesh], h2, ?_⟩
+  intro hn
+  rw [h2 (n - 1) (by omega)]
+  have e : n - 1 + 1 = n := by omega
+  have hne : (n : K) ≠ 0 := by exact_mod_cast (by omega : n ≠ 0)
+  simp only [Option.map_some, e, div_self hne]
+
 end CurvesOrdered
+
+/-! ## The iterative solver (`numerical/cg.go`: `BiCGSTAB`, `BiCGSTABSolver`)
+
+Model `M3d/Model/BiCG.lean` (vectors = lists, `Op` a function parameter; run bit for bit against the real code by the
+kinds `bicg.f` / `bicgsolve.f` with a dense matrix as `Op`).  Convergence is floating-point / Krylov theory and is NOT
+proved; what is proved is that the solver cannot return a wrong answer silently: the residual it tracks is the true one,
+its early exits are exact, and the tolerance test of `SolveLinearSystem` is on the true residual of what it returns. -/
+
+section BiCG
+open M3d.BiCG
+variable [LinearOrder K] [IsStrictOrderedRing K]
+
+/-- **`BiCGSTAB.Iter` tracks the true residual**: for a linear `Op` on vectors of length `n`, any right-hand side and
+any initial guess, after any number `k` of `Iter()` calls the solution `x` has length `n` and — until the solver stops —
+the stored `r` equals `b − Op(x)` (whatever values the scalars `alpha`, `beta`, `w` took, zero denominators included). -/
+theorem bicgstab_residual_invariant (sqrt : K → K) (n : Nat) (op : List K → List K) (hop : LinOp n op) (b : List K)
+    (hb : b.length = n) (guess : Option (List K)) (hg : ∀ g, guess = some g → g.length = n) (k : Nat) :
+    (iterN sqrt op k (init op b guess)).x.length = n ∧
+      ((iterN sqrt op k (init op b guess)).term = false →
+        (iterN sqrt op k (init op b guess)).r = vsub b (op (iterN sqrt op k (init op b guess)).x)) := by
+  have h := iterN_inv hop hb sqrt k _ (init_inv hop b hb guess hg)
+  exact ⟨h.hx, h.res⟩
+
+/-- **The early exits of `Iter` are exact solutions**: when the `k+1`-st call sets `terminate` (because `r.Norm() == 0` or
+`t.Norm() == 0`), the solution it returns satisfies `Op(x) = b` exactly — for an injective `Op` and `math.Sqrt` with
+`sqrt(x)² = x` (`SqrtSpec`). -/
+theorem bicgstab_exit_exact (sqrt : K → K) (hs : SqrtSpec sqrt) (n : Nat) (op : List K → List K) (hop : LinOp n op)
+    (hinj : ∀ u, u.length = n → (∀ y ∈ op u, y = 0) → ∀ y ∈ u, y = 0)
+    (b : List K) (hb : b.length = n) (guess : Option (List K)) (hg : ∀ g, guess = some g → g.length = n) (k : Nat)
+    (h0 : (iterN sqrt op k (init op b guess)).term = false)
+    (h1 : (iter sqrt op (iterN sqrt op k (init op b guess))).term = true) :
+    op (iter sqrt op (iterN sqrt op k (init op b guess))).x = b := by
+  refine iter_term_exact hop hb sqrt ?_ hinj _ (iterN_inv hop hb sqrt k _ (init_inv hop b hb guess hg)) h0 h1
+  intro x hx h
+  have := (hs x hx).1
+  rw [h] at this
+  simpa using this.symm
+
+/-- **`BiCGSTABSolver.SolveLinearSystem` returns `x` with `A·x = b` to the stated tolerance, or has used all its
+iterations**: the returned vector is the iterate after the reported number `k ≤ MaxIters` of `Iter()` calls; when the
+loop was left through the tolerance test then `Σ (A·x − b)ᵢ² < MSETolerance·n` or `Σ |A·x − b|ᵢ < MAETolerance·n` for
+the TRUE residual of the returned `x`; otherwise `k = MaxIters`. -/
+theorem bicgstab_solver_tolerance (sqrt : K → K) (isNaN : K → Bool) (op : List K → List K) (b : List K) (hb : b ≠ [])
+    (guess : Option (List K)) (bound : Nat) (mse mae : K) (sol : List K) (k : Nat) (byTol : Bool)
+    (h : solve sqrt (fun x => |x|) isNaN op b guess bound mse mae = .done sol k byTol) :
+    k ≤ bound ∧ sol = (iterN sqrt op k (init op b guess)).x ∧
+      (byTol = true → ((vsub (op sol) b).map fun e => e * e).sum < mse * (b.length : K) ∨
+        ((vsub (op sol) b).map fun e => |e|).sum < mae * (b.length : K)) ∧
+      (byTol = false → k = bound) := by
+  have hne : b.isEmpty = false := by cases b with | nil => exact absurd rfl hb | cons _ _ => rfl
+  simp only [solve, hne] at h
+  have hp := solveLoop_spec sqrt (fun x => |x|) isNaN op b mse mae bound 0 (init op b guess)
+  simp only [Bool.false_eq_true, if_false] at h
+  rw [h] at hp
+  obtain ⟨j, e1, e2, e3, e4, e5⟩ := hp
+  have ej : j = k := by omega
+  subst ej
+  refine ⟨e2, e3, fun ht => ?_, e5⟩
+  have := e4 ht
+  simp only [errSums, errSums_eq, Nat.cast_zero, zero_add] at this
+  exact this
+
+/-- The operator the correspondence passes — a dense `n × n` matrix applied row by row — satisfies the hypothesis
+`LinOp` of the theorems above. -/
+theorem bicgstab_dense_op_linear (n : Nat) (rows : List (List K)) (hn : rows.length = n)
+    (hrow : ∀ r ∈ rows, r.length = n) : LinOp n (denseOp rows) :=
+  denseOp_linOp n rows hn hrow
+
+end BiCG
+
+/-- A concrete run at ℚ (2×2 system `[[2,0],[0,4]]·x = (2,4)`, zero initial guess, `sqrt` only tested against 0): after one
+iteration `x = (8/9, 17/18)` and the tracked residual `(2/9, 2/9)` is `b − A·x`; the second iteration finds `s = 0`,
+leaves through the `t.Norm() == 0` exit and returns the exact solution `(1,1)`. -/
+example :
+    let sq : ℚ → ℚ := fun x => if x = 0 then 0 else 1
+    let op := M3d.BiCG.denseOp [[(2 : ℚ), 0], [0, 4]]
+    let s1 := M3d.BiCG.iterN sq op 1 (M3d.BiCG.init op [2, 4] none)
+    let s2 := M3d.BiCG.iterN sq op 2 (M3d.BiCG.init op [2, 4] none)
+    s1.x = [8/9, 17/18] ∧ s1.r = [2/9, 2/9] ∧ M3d.BiCG.vsub [2, 4] (op s1.x) = [2/9, 2/9] ∧ s1.term = false ∧
+      s2.x = [1, 1] ∧ s2.term = true ∧ op s2.x = [2, 4] := by
+  decide +kernel
 
 end M3d.C17
